@@ -387,7 +387,8 @@ def int_case(ctx, dtype, vals, chain, group, allow_big=False):
     nt = bool(vals) and (compared or (refused and v.cls == "refuse_or_exact"))
     ctx.ev(1, 1 if nt else 0)
     ctx.outcome(packed if packed is not None else (direct[1:], filed[1:]))
-    if nt and len(ctx.samples) < 2 and len(chain) >= 2 and len(vals) >= 2:
+    if (nt and len(ctx.samples) < 2 and len(chain) >= 2 and len(set(vals)) >= 2 and dtype in ("int32", "uint32")
+            and (ctx.shard or {}).get("part") == 0):
         ctx.sample({**case, "model": v.cls, "result": "round trip exact" if compared else "refused"})
 
 
@@ -476,7 +477,7 @@ def run_int_shard(shard, ctx):
         chains2 = [c + [B()] for c in all_chains((2,))]
         chains3 = [c + [B()] for c in all_chains((3,))]
         chains4 = [c + [B()] for c in all_chains((4,))] if tier == "thorough" else []
-        max3 = 3 if tier == "quick" else 5  # longest array sent through the 512 three-stage chains
+        max3 = 2 if tier == "quick" else 5  # longest array sent through the 512 three-stage chains
         for vals in chain_arrays(dtype, tier, seed):
             idx += 1
             if idx % parts != part:
@@ -1629,7 +1630,7 @@ def bounds(tier):
         "single_stage_variants": "8 symbols x 7 ByteArray types + %d explicit-parameter variants"
         % len(single_variants(1, 0, "int32")),
         "chain_len": "2..3" if q else "2..4",
-        "chain_arrays": "2-stage chains: core 0..2, patterns 3-4; 3-stage chains: core 0..2, patterns 3" if q else
+        "chain_arrays": "2-stage chains: core 0..2, patterns 3-4; 3-stage chains: core 0..2" if q else
         "2/3-stage chains: core 0..2, patterns 3-5; 4-stage chains: core 0..2",
         "fixed_factors": FACTORS,
         "fixed_array_len": "palette(19) 0..2, core(6) 3" if q else "palette(19) 0..3, core(6) 4",
